@@ -320,6 +320,11 @@ func generateMode(key echx.KeyPair, b base, thorough, retry bool) (out []fault) 
 		add("record-cut-then-eof", fmt.Sprint(cut), []string{DE, "eof"}, first)
 		if cut >= 4 && (thorough || cut%5 == 0) {
 			add("record-cut-then-appdata", fmt.Sprint(cut), []string{UM, DE}, append(slices.Clone(first), tlsref.Record(23, 0x0303, []byte{1, 2, 3})...))
+			// ... also when that foreign record is EMPTY: it is a record of another content type in the middle of a handshake
+			// message (unexpected_message), not an empty handshake fragment
+			for _, ct := range []byte{20, 21, 23} {
+				add("record-cut-then-empty-foreign-record", fmt.Sprintf("%d type%d", cut, ct), []string{UM}, append(slices.Clone(first), tlsref.Record(ct, 0x0303, nil)...))
+			}
 			junk := make([]byte, len(msg)-cut)
 			for i := range junk {
 				junk[i] = 0xA5
@@ -349,6 +354,17 @@ func generateMode(key echx.KeyPair, b base, thorough, retry bool) (out []fault) 
 				f := add("inner-length-field", fmt.Sprintf("off%d%+d", lf[0]-4, d), []string{DE, IP}, o.Record())
 				f.mayBeValid = true
 			}
+		}
+	}
+	// F9c' an AUTHENTIC payload whose plaintext is empty or a few bytes long (the inner hello is cut off at its very start):
+	// authentic but malformed - aborted, not mistaken for "no key matched"
+	if !retry {
+		for _, n := range []int{0, 1, 2, 5, 34} {
+			full := tlsref.EncodeInner(func() *tlsref.Hello { h := s.InnerBase.Clone(); h.Exts = s.EncInner; return h }(), nil)
+			o := s.Outer.Clone()
+			sealer, _ := tlsref.NewSealer(key.Cfg, s.Suite, detEph(s.EphLabel), nil)
+			sealer.Seal(o, s.EchIdx, full[:n], true)
+			add("inner-plaintext-cut-short", fmt.Sprint(n), []string{DE, IP}, o.Record())
 		}
 	}
 	// F9d malformed syntax inside the extensions the server interprets, in the outer hello and inside the (authentic) inner hello
